@@ -66,10 +66,12 @@ ASSUMPTIONS = [
     "defined; after an enumerated site only expectations (E),(U) are demanded",
 ]
 BOUNDS = {
-    "quick": dict(thetas=[0.3, 0.6], n_cont=3, single_templates=8, pair_templates=3,
-                  primitives=19, pairs="representative set x all primitives, both orders"),
-    "thorough": dict(thetas=[0.3, 0.6, 0.45], n_cont=3, single_templates=8, pair_templates=3,
-                     primitives=19, pairs="all ordered pairs"),
+    "quick": dict(thetas=[0.3, 0.6], n_cont=3, primitives=19,
+                  single_templates="arith, cond_val, cost, const x all 19; ret, cond, cond_lit x 2-3 primitives",
+                  pair_templates="seq: {flip_enum, flip_reinforce, normal_reparam} x 7 partners in both orders; "
+                                 "dep, condprim: the 9 pairs of those three + 2 mixed pairs each"),
+    "thorough": dict(thetas=[0.3, 0.6, 0.45], n_cont=3, primitives=19, single_templates="all 7 x all 19",
+                     pair_templates="seq, dep, condprim x all 361 ordered pairs"),
 }
 JOBS = {"quick": 8, "thorough": 16}
 
@@ -711,7 +713,10 @@ def _run(tname, template, names, tier, seed):
                 if lib_keys < ref_sites and sym != "sum_prob":
                     extra = dict(extra, consequence=sym, distinct_keys_consumed=lib_keys, sampled_sites=ref_sites)
                     sym = "key_reuse"
-                ctx.fail(comp, "jvp_estimate", tname, sym, dict(detail, **extra))
+                    # by convention the earlier primitive is named: its continuation received the key it sampled with
+                    ctx.fail(names[0], "jvp_estimate", tname, sym, dict(detail, **extra))
+                else:
+                    ctx.fail(comp, "jvp_estimate", tname, sym, dict(detail, **extra))
             if theta == thetas[0]:
                 ctx.sample(dict(program=prog, theta=theta, n_paths=len(paths), G=ref.G, dG=ref.ET,
                                 first_path=dict(prob=prob[0], primal=prim[0], tangent=tang[0])))
